@@ -425,8 +425,8 @@ impl Prop for C11Agent {
         "agent-installs"
     }
     fn rule(&self) -> String {
-        "the databases and expressions of part `evaluator`; one managed policy carries the \
-         expression, the real agent runs once against fake IRRd + fake Junos, and the route-filters \
+        "the databases and expressions of part `evaluator` (plus an as-set the database does not \
+         know); one to three managed policies each carry an expression, the real agent runs once against fake IRRd + fake Junos, and the route-filters \
          installed in the fake Junos must denote exactly the RPSL set (IPv4 / IPv6 partition \
          included); when the evaluation has to fail nothing may be installed. Non-trivial = a \
          non-empty set was installed; distinct by (database, expression)"
@@ -435,12 +435,25 @@ impl Prop for C11Agent {
     fn cases(&self, tier: Tier) -> u32 {
         tier.pick(4_000, 200_000)
     }
-    fn strategy(&self, tier: Tier) -> BoxedStrategy<c11::Case> {
-        c11::C11.strategy(tier)
+    fn strategy(&self, _tier: Tier) -> BoxedStrategy<c11::Case> {
+        c11::db_strategy(false)
+            .prop_flat_map(|spec| {
+                let (mut a, r, f) = c11::names_of(&spec);
+                a.push("AS-UNKNOWN".into());
+                (
+                    Just(spec),
+                    prop::collection::vec(c11::expr_strategy(a, r, f), 1..4),
+                )
+            })
+            .prop_map(|(spec, exprs)| c11::Case { spec, exprs })
+            .boxed()
     }
     fn check(&self, case: &c11::Case) -> Obs {
         let mut obs = Obs::default();
-        let expr = &case.exprs[0];
+        // one managed policy per expression of the case, all evaluated in the same run (the
+        // agent uses one evaluator and one IRR connection for all of them)
+        let exprs: Vec<&crate::irr::Expr> = case.exprs.iter().take(3).collect();
+        obs.class(format!("policies-in-the-run:{}", exprs.len()));
         let irrd = match FakeIrrd::start(case.spec.db.clone(), case.spec.chunk as usize) {
             Ok(s) => s,
             Err(e) => {
@@ -449,28 +462,39 @@ impl Prop for C11Agent {
             }
         };
         let fake = Arc::new(Mutex::new(FakeJunos::new("bgpfu")));
-        fake.lock().unwrap().running = vec![Stmt::managed("fltr-x", &expr.text())];
+        fake.lock().unwrap().running = exprs
+            .iter()
+            .enumerate()
+            .map(|(i, e)| Stmt::managed(&format!("fltr-x{i}"), &e.text()))
+            .collect();
         let result = full_run(&fake, ("127.0.0.1", irrd.port), "bgpfu");
         let after = fake.lock().unwrap().ephemeral.clone();
         if !result.is_ok() {
             obs.fail(
                 "run-fails",
-                format!("the run failed ({result:?}) for expression {}", expr.text()),
+                format!(
+                    "the run failed ({result:?}) for expressions {:?}",
+                    exprs.iter().map(|e| e.text()).collect::<Vec<_>>()
+                ),
             );
             return obs;
         }
         let oracle = Oracle::new(&case.spec.db, &case.spec.filter_exprs);
+        for (i, expr) in exprs.iter().enumerate() {
+        let expr: &crate::irr::Expr = expr;
+        let name = format!("fltr-x{i}");
+        let name = name.as_str();
         match oracle.expect(expr) {
             Expect::Fails(why) => {
                 obs.class("evaluation-must-fail");
-                if after.get("fltr-x").is_some() {
+                if after.get(name).is_some() {
                     obs.fail(
                         "installed-although-evaluation-must-fail",
-                        format!("{} : {why}, yet a policy was installed: {:?}", expr.text(), after.get("fltr-x")),
+                        format!("{} : {why}, yet a policy was installed: {:?}", expr.text(), after.get(name)),
                     );
                 }
             }
-            Expect::Set => match installed_ranges(&after, "fltr-x") {
+            Expect::Set => match installed_ranges(&after, name) {
                 None => obs.fail(
                     "evaluated-policy-not-installed",
                     format!("{} evaluated but nothing installed", expr.text()),
@@ -478,7 +502,7 @@ impl Prop for C11Agent {
                 Some(ranges) => {
                     obs.nontrivial = !ranges.is_empty();
                     // the family of every installed entry must match its term
-                    if let Some(pol) = after.get("fltr-x") {
+                    if let Some(pol) = after.get(name) {
                         for t in &pol.terms {
                             for e in &t.filters {
                                 let v6 = e.0.contains(':');
@@ -516,6 +540,7 @@ impl Prop for C11Agent {
                     }
                 }
             },
+        }
         }
         obs
     }
